@@ -46,6 +46,19 @@ def gen_cases(tier, seed):
         i += 1
         yield {'family': fmt, 'sizes': [5, 1, 200], 'format': fmt, 'pretty': True, 'idx': i, 'seed': seed, 'tier': tier,
                'early_stop': True}
+    # resources whose paths differ only in what the dumper rewrites (extension), or that would take the descriptor's name;
+    # force_format=False with an extension the dumper does not write
+    for fmt in ('csv', 'json'):
+        for paths in ([('cities', 'data/cities.csv'), ('towns', 'data/cities.json')],
+                      [('s1', 'sales.2019.q1'), ('s2', 'sales.2019.q2')],
+                      [('datapackage', 'datapackage.csv'), ('m', 'm.csv')]):
+            i += 1
+            yield {'family': fmt, 'sizes': [3, 2], 'format': fmt, 'pretty': True, 'idx': i, 'seed': seed, 'tier': tier,
+                   'paths': paths}
+    for paths in ([('rivers', 'rivers.tsv'), ('m', 'm.csv')], [('regions', 'REGIONS.CSV'), ('m', 'm.json')]):
+        i += 1
+        yield {'family': 'csv', 'sizes': [3, 2], 'format': 'csv', 'pretty': True, 'idx': i, 'seed': seed, 'tier': tier,
+               'paths': paths, 'no_force_format': True}
     # the source of the first resource fails half way and a later step swallows the error
     for fmt in ('csv', 'json'):
         i += 1
@@ -69,7 +82,8 @@ def run_case(case):
     cfg = {'sizes': case['sizes'], 'format': case['format'], 'pretty': case['pretty'],
            'add_filehash_to_path': bool(case.get('filehash')), 'no_resource_hash': bool(case.get('no_resource_hash')),
            'later_step_stops_reading_early': bool(case.get('early_stop')),
-           'source_fails_and_later_step_swallows': bool(case.get('swallowed_failure'))}
+           'source_fails_and_later_step_swallows': bool(case.get('swallowed_failure')),
+           'resource_paths': case.get('paths'), 'force_format': not case.get('no_force_format')}
     F = [{'name': 'id', 'type': 'integer'}, {'name': 't', 'type': 'string'}, {'name': 'n', 'type': 'number'}]
     tables = [[{'id': r * 1000 + i, 't': 'żółć-%d "q", x' % i, 'n': 1.5 * i} for i in range(n)]
               for r, n in enumerate(case['sizes'])]
@@ -82,6 +96,9 @@ def run_case(case):
 
     def run_dump(out):
         steps = [lab.source('res%d' % i, F, t) for i, t in enumerate(tables)]
+        if case.get('paths'):
+            steps = [lab.source(nm, F, t) for (nm, _), t in zip(case['paths'], tables)] + \
+                [d.update_resource(nm, path=pth) for nm, pth in case['paths']]
         if case.get('swallowed_failure'):
             def broken():
                 for n_, row in enumerate(copy.deepcopy(tables[0])):
@@ -95,6 +112,8 @@ def run_case(case):
             kw['add_filehash_to_path'] = True
         if case.get('no_resource_hash'):
             kw['counters'] = {'resource-hash': None}
+        if case.get('no_force_format'):
+            kw['force_format'] = False
         steps.append(d.dump_to_path(out, format=case['format'], pretty_descriptor=case['pretty'], **kw))
         if case.get('swallowed_failure'):
             def tolerant(rows):
@@ -223,7 +242,7 @@ def run_case(case):
                     'listed_file_size')
             elif rd.get('hash') is not None and rd.get('hash') != iolab.md5(data):
                 add('listed_file_hash', '%s: %r recorded hash differs from the file' % (what, p), 'listed_file_hash')
-        if len(desc.get('resources', [])) != len(tables):
+        if len(desc.get('resources', [])) != len(tables) and not case.get('no_force_format'):
             add('descriptor_resources', '%s: descriptor lists %d resources of %d' %
                 (what, len(desc.get('resources', [])), len(tables)), 'descriptor_resources')
     modes = [('kill', k) for k in ks] + [('raise', k) for k in ks
